@@ -837,6 +837,10 @@ class ParallelProcess(Process):
         # Only end once.
         if self._ended:
             return
+        if self._pending_command:
+            # A command (e.g. an update in flight) is still pending.
+            # Collect and drop its result so that 'end' can be sent.
+            self.get_command_result()
         self.send_command('end')
         if self.profile:
             stats = pstats.Stats()
@@ -846,6 +850,8 @@ class ParallelProcess(Process):
         self.multiprocess.join()
         self.multiprocess.close()
         self._ended = True
+        # 'end' has no result to collect
+        self._pending_command = None
 
     def __del__(self) -> None:
         self.end()
